@@ -111,19 +111,31 @@ func ChunkFromSave(c *save.Chunk) (*Chunk, error) {
 	}
 
 	bitsForHeight := bits.Len( /* chunk height in blocks */ uint(secs)*16 + 1)
-	return &Chunk{
+	var heightMapErr error
+	heightMap := func(name string) *BitStorage {
+		storage, err := newHeightMap(bitsForHeight, c.Heightmaps[name])
+		if err != nil && heightMapErr == nil {
+			heightMapErr = fmt.Errorf("heightmap %s: %w", name, err)
+		}
+		return storage
+	}
+	chunk := &Chunk{
 		Sections: sections,
 		HeightMaps: HeightMaps{
-			WorldSurface:           NewBitStorage(bitsForHeight, 16*16, c.Heightmaps["WORLD_SURFACE"]),
-			WorldSurfaceWG:         NewBitStorage(bitsForHeight, 16*16, c.Heightmaps["WORLD_SURFACE_WG"]),
-			OceanFloorWG:           NewBitStorage(bitsForHeight, 16*16, c.Heightmaps["OCEAN_FLOOR_WG"]),
-			OceanFloor:             NewBitStorage(bitsForHeight, 16*16, c.Heightmaps["OCEAN_FLOOR"]),
-			MotionBlocking:         NewBitStorage(bitsForHeight, 16*16, c.Heightmaps["MOTION_BLOCKING"]),
-			MotionBlockingNoLeaves: NewBitStorage(bitsForHeight, 16*16, c.Heightmaps["MOTION_BLOCKING_NO_LEAVES"]),
+			WorldSurface:           heightMap("WORLD_SURFACE"),
+			WorldSurfaceWG:         heightMap("WORLD_SURFACE_WG"),
+			OceanFloorWG:           heightMap("OCEAN_FLOOR_WG"),
+			OceanFloor:             heightMap("OCEAN_FLOOR"),
+			MotionBlocking:         heightMap("MOTION_BLOCKING"),
+			MotionBlockingNoLeaves: heightMap("MOTION_BLOCKING_NO_LEAVES"),
 		},
 		BlockEntity: blockEntities,
 		Status:      ChunkStatus(c.Status),
-	}, nil
+	}
+	if heightMapErr != nil {
+		return nil, heightMapErr
+	}
+	return chunk, nil
 }
 
 func readStatesPalette(palette []save.BlockState, data []uint64) (paletteData *PaletteContainer[BlocksState], err error) {
